@@ -67,8 +67,8 @@ Print Assumptions C11_refuted_delete_after_unload.
 Example C11_nonvacuous :
   let cl := [{| ci_name := "B"; ci_base := None; ci_virtual := true |};
              {| ci_name := "D"; ci_base := Some "B"; ci_virtual := true |}] in
-  let h := [Construct 1 "D"; Receive 2 "B" 0; Delete 1; Construct 3 "B"; Unload] in
+  let h := [Construct 1 "D"; Receive 2 "B" 0 true; Delete 1; Construct 3 "B"; Unload] in
   protocol cl ginit h = true /\
-  map c_class (g_cells (run cl [Construct 1 "D"; Receive 2 "B" 0])) = ["D"; "B"; "D"; "B"] /\
-  alive (run cl [Construct 1 "D"; Receive 2 "B" 0; Delete 1]) 0 = true.
+  map c_class (g_cells (run cl [Construct 1 "D"; Receive 2 "B" 0 true])) = ["D"; "B"; "D"; "B"] /\
+  alive (run cl [Construct 1 "D"; Receive 2 "B" 0 true; Delete 1]) 0 = true.
 Proof. vm_compute. auto. Qed.
